@@ -881,9 +881,8 @@ class PureScheduler:                                    # pylint: disable=r0902
 
         await self._feedback(None, "scheduler is shutting down...")
 
-        # the done part is of no use here
         try:
-            _, pending = await asyncio.wait(tasks, timeout=timeout)
+            return await self._wait_shutdown_tasks(tasks, timeout)
         except asyncio.CancelledError:
             # cancelled during shutdown: do not leave the co_shutdown()
             # methods running behind
@@ -895,6 +894,14 @@ class PureScheduler:                                    # pylint: disable=r0902
                     pass
                 pending = [task for task in pending if not task.done()]
             raise
+
+    async def _wait_shutdown_tasks(self, tasks, timeout):
+        """
+        The second half of :meth:`co_shutdown()`: wait for the tasks,
+        and cancel the ones that do not complete within timeout
+        """
+        # the done part is of no use here
+        _, pending = await asyncio.wait(tasks, timeout=timeout)
         # everything went fine
         # NOTE however: here we say that sub-schedulers that expired in timeout
         # should not impact the overall result; this is an arguable choice
